@@ -113,6 +113,7 @@ func c16Unit(c *RunCtx, unit int) {
 	}
 	mailFault := ""
 	again := time.Duration(0)
+	opFault := "" // a storage operation that fails once during BOTH requests of a pair (the store is read-only, failing over)
 	pairN := 0
 	pair := func(kind, what string, build func(variant int) (world.Req, string)) {
 		base := w.SaveState()
@@ -158,6 +159,9 @@ func c16Unit(c *RunCtx, unit int) {
 			}
 			if mailFault != "" {
 				w.FaultOps = map[string]error{mailFault: errGeneric}
+			}
+			if opFault != "" {
+				w.FaultOps = map[string]error{opFault: errGeneric}
 			}
 			rec := w.Do(b, rq)
 			obs[v] = observable(w, b, rec, pid)
@@ -207,6 +211,17 @@ func c16Unit(c *RunCtx, unit int) {
 				}
 				return world.Req{Method: "POST", Path: w.P("/login"), Form: form}, ac.PID
 			})
+			// the same pair while the user store refuses writes: whatever the answer to a locked account is then, it
+			// is the same answer for a right and a wrong password
+			opFault = "Save"
+			pair("locked-correct-vs-incorrect-password", state+"/store-refuses-writes", func(v int) (world.Req, string) {
+				form := map[string]string{"email": ac.PID, "password": ac.Pw}
+				if v == 1 {
+					form["password"] = "Wr0ng!" + ac.Pw
+				}
+				return world.Req{Method: "POST", Path: w.P("/login"), Form: form}, ac.PID
+			})
+			opFault = ""
 			if cfg.Has("otp") {
 				pair("locked-correct-vs-incorrect-otp", state, func(v int) (world.Req, string) {
 					form := map[string]string{"email": ac.PID, "password": otps[ac.PID]}
